@@ -24,63 +24,6 @@ open Lex
 def append_safe_full : Prop :=
   ∀ (text s : Bytes) (line : Nat), text ≠ [] → AppendSafeAt text s line
 
-/-- generic step: a comment lexeme `c :: body` at the head is emitted and lexing continues behind it -/
-theorem lexFrom_comment (c : UInt8) (body rest : Bytes) (line : Nat)
-    (h : scan [] c (body ++ rest) = ⟨.comment, body.length, []⟩) :
-    lexFrom line (c :: body ++ rest)
-      = .com ⟨c :: body, line⟩ :: lexFrom (line + countNl (c :: body)) rest := by
-  simp only [lexFrom, List.cons_append, List.length_cons]
-  rw [go_comment h]
-  simp only [List.take_left', List.drop_left']
-  rw [go_eq_lexFrom' _ [] _ rest (by simp)]
-
-theorem commentText_single (text : Bytes) (h0 : text ≠ []) (h10 : 10 ∉ text) :
-    commentText text = 45 :: 45 :: text := by
-  simp [commentText, h0, h10]
-
-theorem commentText_multi (text : Bytes) (h10 : 10 ∈ text) :
-    commentText text = 45 :: 45 :: 91 :: (List.replicate (findLevel (text.length + 1) 0 text) 61
-      ++ 91 :: 10 :: (text ++ 10 :: closer (findLevel (text.length + 1) 0 text))) := by
-  have h0 : text ≠ [] := by intro h; subst h; simp at h10
-  simp [commentText, h0, h10, closeComment_eq_closer]
-
-/-- Single-line branch, any continuation `rest` that is empty or starts with a line break. -/
-theorem single_line_scan (text rest : Bytes) (h13 : 13 ∉ text) (h10 : 10 ∉ text)
-    (ho : longOpen? text = none) (hr : rest = [] ∨ ∃ s, rest = 10 :: s) :
-    scan [] 45 ((45 :: text) ++ rest) = ⟨.comment, (45 :: text).length, []⟩ := by
-  have hlo : longOpen? (text ++ rest) = none := by
-    rcases hr with rfl | ⟨s, rfl⟩
-    · simpa using ho
-    · exact longOpen_append_nl text s ho
-  have hll : lineLen (text ++ rest) = text.length := by
-    rcases hr with rfl | ⟨s, rfl⟩
-    · simpa using lineLen_self text h10 h13
-    · exact lineLen_append_nl text s h10 h13
-  simp [scan, isSpace, scanComment, hlo, hll]
-  omega
-
-/-- Multi-line branch: the opener is recognised with level `k`, the first closer of level `k` is the
-appended one. Needs only that `closer k` does not occur in the text. -/
-theorem multi_line_scan (k : Nat) (text rest : Bytes) (hk : containsSub (closer k) text = false) :
-    scan [] 45 ((45 :: 91 :: (List.replicate k 61 ++ 91 :: 10 :: (text ++ 10 :: closer k))) ++ rest)
-      = ⟨.comment, (45 :: 91 :: (List.replicate k 61 ++ 91 :: 10 :: (text ++ 10 :: closer k))).length, []⟩ := by
-  have hk' : containsSub (closer k) (10 :: text) = false := by
-    have : (closer k).isPrefixOf (10 :: text) = false := rfl
-    simp only [containsSub, hk, this, Bool.or_false]
-  have hfc := findCloser_append k (10 :: text) rest hk'
-  have hlo := longOpen_opener k (10 :: (text ++ 10 :: (closer k ++ rest)))
-  have hd : List.drop (k + 2) (91 :: (List.replicate k 61 ++ 91 :: 10 :: (text ++ 10 :: (closer k ++ rest))))
-      = 10 :: text ++ 10 :: (closer k ++ rest) := by
-    have e : (91 :: (List.replicate k 61 ++ 91 :: 10 :: (text ++ 10 :: (closer k ++ rest))) : Bytes)
-        = (91 :: (List.replicate k 61 ++ [91])) ++ (10 :: text ++ 10 :: (closer k ++ rest)) := by simp
-    rw [e]
-    exact List.drop_left' (by simp)
-  simp only [scan, isSpace, List.cons_append, List.append_assoc, List.head?_cons, List.drop_one,
-    List.tail_cons, scanComment]
-  simp only [List.cons_append, List.append_assoc] at hlo hfc hd
-  simp [hlo, hd, hfc, closer_length]
-  omega
-
 /-- **The multi-line branch is safe for every text** (level search terminates with a level whose
 closer does not occur; the closer cannot occur inside the text or straddle its end). -/
 theorem append_safe_multiline (text s : Bytes) (line : Nat) (h10 : 10 ∈ text) :
@@ -155,6 +98,34 @@ theorem append_safe_F21_witness : ¬ AppendSafeAt [48, 13, 49] [] 1 := by decide
 
 example : H18 [91, 61, 91, 104] = false ∧ H18 [48, 13, 49] = false := by decide
 
+/-- `H18` is sufficient, not necessary, in its opener clause: a text that is exactly one complete long
+bracket (`[[x]]`) is outside `H18` and still safe (`--[[x]]` is a closed long comment). -/
+example : H18 [91, 91, 120, 93, 93] = false ∧ AppendSafeAt [91, 91, 120, 93, 93] [49] 1 := by decide
+
+/-- Necessity of the CR clause of `H18` (F21 in general): a single-line text without opener that
+contains a CR is *never* safe, whatever follows — the comment the lexer reads stops at the CR. -/
+theorem append_unsafe_cr (text s : Bytes) (line : Nat) (h10 : 10 ∉ text) (h13 : 13 ∈ text)
+    (ho : longOpen? text = none) : ¬ AppendSafeAt text s line := by
+  have h0 : text ≠ [] := by intro h; subst h; simp at h13
+  obtain ⟨x, y, hxy⟩ := List.append_of_mem h13
+  have hll : lineLen (text ++ 10 :: s) ≤ x.length := by
+    rw [hxy]; simpa using lineLen_cr x (y ++ 10 :: s)
+  have hlen : x.length < text.length := by rw [hxy]; simp
+  have hs : scan [] 45 (45 :: (text ++ 10 :: s)) = ⟨.comment, 1 + lineLen (text ++ 10 :: s), []⟩ := by
+    simp [scan, isSpace, scanComment, longOpen_append_nl text s ho]
+  unfold AppendSafeAt
+  rw [commentText_single text h0 h10]
+  simp only [lexFrom, List.cons_append, List.length_cons]
+  rw [go_comment hs]
+  intro h
+  have h1 := (List.cons.inj h).1
+  simp only [Item.com.injEq, Comment.mk.injEq, List.cons.injEq, true_and, and_true] at h1
+  have h2 := congrArg List.length h1
+  simp only [List.length_take, List.length_cons, List.length_append] at h2
+  omega
+
+example : ¬ AppendSafeAt [104, 13, 105] [49] 1 := append_unsafe_cr _ _ _ (by decide) (by decide) (by decide)
+
 /-- The level search of the multi-line branch: it returns the least level whose closer does not occur. -/
 theorem level_search_correct (text : Bytes) :
     containsSub (closeComment (findLevel (text.length + 1) 0 text)) text = false
@@ -164,99 +135,6 @@ theorem level_search_correct (text : Bytes) :
 example : findLevel 8 0 [93, 93, 10, 93, 61, 93, 120] = 2 := by decide
 
 /-! ## Part B: the rules change trivia only (token model) -/
-
-/-- all three per-token operations of token.rs are "retain the trivia satisfying `q`" -/
-def Token.filterTrivia (q : Trivia → Bool) (t : Token) : Token :=
-  { t with leading := t.leading.filter q, trailing := t.trailing.filter q }
-
-theorem clearComments_eq (t : Token) :
-    t.clearComments = Token.filterTrivia (fun x => x.kind != .comment) t := rfl
-theorem clearWhitespaces_eq (t : Token) :
-    t.clearWhitespaces = Token.filterTrivia (fun x => x.kind != .whitespace) t := rfl
-theorem filterComments_eq (keep : Trivia → Bool) (t : Token) :
-    t.filterComments keep = Token.filterTrivia (fun x => x.kind != .comment || keep x) t := rfl
-
-/-- the trivia of kind-selector `sel`, in writing order -/
-def selectTrivia (sel : Trivia → Bool) (l : List Token) : List Trivia :=
-  l.flatMap fun t => t.leading.filter sel ++ t.trailing.filter sel
-
-theorem all_mapTokens (g : Token → Token) (f : File) : (f.mapTokens g).all = f.all.map g := by
-  cases hf : f.final <;> simp [File.all, File.mapTokens, hf]
-
-theorem comments_eq (f : File) :
-    f.comments = (selectTrivia (·.kind == .comment) f.all).map (·.content) := rfl
-theorem whitespaces_eq (f : File) :
-    f.whitespaces = (selectTrivia (·.kind == .whitespace) f.all).map (·.content) := rfl
-
-theorem selectTrivia_filterTrivia (sel q : Trivia → Bool) (l : List Token) :
-    selectTrivia sel (l.map (Token.filterTrivia q)) = (selectTrivia sel l).filter q := by
-  have key : ∀ l : List Trivia, (l.filter q).filter sel = (l.filter sel).filter q := by
-    intro l
-    rw [List.filter_filter, List.filter_filter]
-    apply List.filter_congr
-    intro x _
-    exact Bool.and_comm _ _
-  induction l with
-  | nil => rfl
-  | cons t r ih =>
-    simp only [selectTrivia, List.map_cons, List.flatMap_cons, List.filter_append] at ih ⊢
-    rw [ih]
-    simp only [Token.filterTrivia, key]
-
-theorem mem_selectTrivia (sel : Trivia → Bool) (l : List Token) :
-    ∀ x ∈ selectTrivia sel l, sel x = true := by
-  intro x hx
-  simp only [selectTrivia, List.mem_flatMap, List.mem_append, List.mem_filter] at hx
-  obtain ⟨_, _, h | h⟩ := hx <;> exact h.2
-
-theorem codeOf_map (g : Token → Token) (hg : ∀ t, (g t).content = t.content) (l : List Token) :
-    ((l.map g).map (·.content)) = l.map (·.content) := by
-  rw [List.map_map]
-  apply List.map_congr_left
-  intro t _
-  exact hg t
-
-theorem linesOf_map (g : Token → Token) (hg : ∀ t, (g t).content = t.content) (l : List Token) :
-    ((l.map g).filter (fun t => !t.content.isEmpty)).map (·.line)
-      = (l.filter (fun t => !t.content.isEmpty)).map (fun t => (g t).line) := by
-  induction l with
-  | nil => rfl
-  | cons t r ih =>
-    simp only [List.map_cons, List.filter_cons, hg t]
-    split <;> simp [ih]
-
-theorem mapTokens_code (g : Token → Token) (hg : ∀ t, (g t).content = t.content) (f : File) :
-    (f.mapTokens g).code = f.code := by
-  simp only [File.code, all_mapTokens, codeOf_map g hg]
-
-theorem mapTokens_codeLines (g : Token → Token)
-    (hg : ∀ t, (g t).content = t.content) (hl : ∀ t, (g t).line = t.line) (f : File) :
-    (f.mapTokens g).codeLines = f.codeLines := by
-  simp only [File.codeLines, all_mapTokens, linesOf_map g hg, hl]
-
-/-- comments kept by `filter_comments` with a filter that looks at the content only -/
-theorem filterComments_comments (p : Bytes → Bool) (f : File) :
-    (f.mapTokens (Token.filterComments fun x => p x.content)).comments = f.comments.filter p := by
-  have e : (Token.filterComments fun x => p x.content)
-      = Token.filterTrivia (fun x => x.kind != .comment || p x.content) := by
-    funext t; rfl
-  rw [comments_eq, comments_eq, all_mapTokens, e, selectTrivia_filterTrivia, List.filter_map]
-  congr 1
-  apply List.filter_congr
-  intro x hx
-  have : x.kind = .comment := by simpa using mem_selectTrivia _ _ x hx
-  simp [this]
-
-theorem clearComments_comments (f : File) : (f.mapTokens Token.clearComments).comments = [] := by
-  have e : Token.clearComments = Token.filterTrivia (fun x => x.kind != .comment) := by
-    funext t; rfl
-  rw [comments_eq, all_mapTokens, e, selectTrivia_filterTrivia]
-  have : (selectTrivia (·.kind == .comment) f.all).filter (fun x => x.kind != .comment) = [] := by
-    rw [List.filter_eq_nil_iff]
-    intro x hx
-    have : x.kind = .comment := by simpa using mem_selectTrivia _ _ x hx
-    simp [this]
-  rw [this]; rfl
 
 /-- **code_tokens_unchanged** for `remove_comments` (any `except` list, any matcher):
 the code tokens and their line numbers are unchanged, and exactly the comments that match no
@@ -279,13 +157,6 @@ theorem code_tokens_unchanged {Pat : Type} (isMatch : Pat → Bytes → Bool) (e
     exact ⟨mapTokens_code _ (by intro t; rfl) f,
       mapTokens_codeLines _ (by intro t; rfl) (by intro t; rfl) f,
       filterComments_comments (fun c => (p :: ps).any fun q => isMatch q c) f⟩
-
-/-- retaining trivia by a predicate that holds for every trivia of the selected kind keeps them all -/
-theorem selected_kept (sel q : Trivia → Bool) (hq : ∀ x, sel x = true → q x = true) (f : File) :
-    selectTrivia sel (f.mapTokens (Token.filterTrivia q)).all = selectTrivia sel f.all := by
-  rw [all_mapTokens, selectTrivia_filterTrivia, List.filter_eq_self]
-  intro x hx
-  exact hq x (mem_selectTrivia _ _ x hx)
 
 /-- `remove_comments` leaves whitespace trivia alone -/
 theorem removeComments_whitespaces {Pat : Type} (isMatch : Pat → Bytes → Bool) (except : List Pat)
@@ -343,106 +214,6 @@ example : (removeComments LitPat.isMatch [⟨false, false, [107]⟩] sampleFile)
 
 /-! ## Part C: `append_text_comment` on the token model -/
 
-theorem appendComment_content (loc : AppendLocation) (c : Bytes) (t : Token) :
-    (appendComment loc c t).content = t.content := by
-  cases loc <;> simp only [appendComment, Token.insertLeadingTrivia, Token.pushTrailingTrivia]
-    <;> (repeat' split) <;> rfl
-
-theorem appendComment_line (loc : AppendLocation) (c : Bytes) (t : Token) :
-    (appendComment loc c t).line = t.line := by
-  cases loc <;> simp only [appendComment, Token.insertLeadingTrivia, Token.pushTrailingTrivia]
-    <;> (repeat' split) <;> rfl
-
-theorem mapHead_eq (g : Token → Token) (l : List Token) :
-    ∃ l', mapHead g l = l' ∧ l'.length = l.length
-      ∧ ∀ i (h : i < l'.length) (h' : i < l.length), l'[i] = l[i] ∨ l'[i] = g l[i] := by
-  refine ⟨_, rfl, ?_, ?_⟩
-  · cases l <;> simp [mapHead]
-  · intro i h h'
-    cases l with
-    | nil => simp at h'
-    | cons t r => cases i <;> simp [mapHead]
-
-theorem mapLast_length (g : Token → Token) (l : List Token) : (mapLast g l).length = l.length := by
-  induction l with
-  | nil => rfl
-  | cons t r ih => cases r with
-    | nil => rfl
-    | cons u r' => simp only [mapLast, List.length_cons] at ih ⊢; omega
-
-/-- a token-list transformation that maps each token to itself or to its image under a
-content/line-preserving `g` preserves contents and lines -/
-theorem mapHead_content (g : Token → Token) (hg : ∀ t, (g t).content = t.content) (l : List Token) :
-    (mapHead g l).map (·.content) = l.map (·.content) := by
-  cases l <;> simp [mapHead, hg]
-
-theorem mapLast_content (g : Token → Token) (hg : ∀ t, (g t).content = t.content) (l : List Token) :
-    (mapLast g l).map (·.content) = l.map (·.content) := by
-  induction l with
-  | nil => rfl
-  | cons t r ih =>
-    cases r with
-    | nil => simp [mapLast, hg]
-    | cons u r' => simp only [mapLast, List.map_cons] at ih ⊢; rw [ih]
-
-theorem mapHead_line (g : Token → Token) (hg : ∀ t, (g t).content = t.content)
-    (hl : ∀ t, (g t).line = t.line) (l : List Token) :
-    ((mapHead g l).filter (fun t => !t.content.isEmpty)).map (·.line)
-      = (l.filter (fun t => !t.content.isEmpty)).map (·.line) := by
-  cases l with
-  | nil => rfl
-  | cons t r =>
-    simp only [mapHead, List.filter_cons, hg t]
-    split <;> simp [hl]
-
-theorem mapLast_line (g : Token → Token) (hg : ∀ t, (g t).content = t.content)
-    (hl : ∀ t, (g t).line = t.line) (l : List Token) :
-    ((mapLast g l).filter (fun t => !t.content.isEmpty)).map (·.line)
-      = (l.filter (fun t => !t.content.isEmpty)).map (·.line) := by
-  induction l with
-  | nil => rfl
-  | cons t r ih =>
-    cases r with
-    | nil =>
-      simp only [mapLast, List.filter_cons, hg t]
-      split <;> simp [hl]
-    | cons u r' =>
-      simp only [mapLast] at ih ⊢
-      rw [List.filter_cons, List.filter_cons (x := t)]
-      split <;> simp [ih]
-
-theorem attachComment_code (loc : AppendLocation) (text : Bytes) (g : File) :
-    (attachComment loc text g).code = g.code := by
-  unfold attachComment
-  cases hg : g.tokens with
-  | nil =>
-    cases hf : g.final <;>
-      simp [File.code, File.all, hg, hf, appendComment_content, emptyToken]
-  | cons t r =>
-    cases loc
-    · simp only [File.code, File.all, List.map_append]
-      rw [mapHead_content _ (appendComment_content _ _), hg]
-    · simp only [File.code, File.all, List.map_append]
-      rw [mapLast_content _ (appendComment_content _ _), hg]
-
-theorem attachComment_codeLines (loc : AppendLocation) (text : Bytes) (g : File) :
-    (attachComment loc text g).codeLines = g.codeLines := by
-  unfold attachComment
-  cases hg : g.tokens with
-  | nil =>
-    cases hf : g.final with
-    | none => simp [File.codeLines, File.all, hg, hf, appendComment_content, emptyToken]
-    | some x =>
-      simp only [File.codeLines, File.all, hg, hf, List.nil_append, Option.toList_some, Option.getD_some,
-        List.filter_append, List.map_append, List.filter_cons, List.filter_nil, appendComment_content]
-      split <;> simp [appendComment_line]
-  | cons t r =>
-    cases loc
-    · simp only [File.codeLines, File.all, List.filter_append, List.map_append]
-      rw [mapHead_line _ (appendComment_content _ _) (appendComment_line _ _), hg]
-    · simp only [File.codeLines, File.all, List.filter_append, List.map_append]
-      rw [mapLast_line _ (appendComment_content _ _) (appendComment_line _ _), hg]
-
 /-- `append_text_comment` never changes the code tokens (either location, any text, any file). -/
 theorem appendTextComment_code (loc : AppendLocation) (content : Bytes) (f : File) :
     (appendTextComment loc content f).code = f.code := by
@@ -451,12 +222,6 @@ theorem appendTextComment_code (loc : AppendLocation) (content : Bytes) (f : Fil
   · rfl
   · rw [attachComment_code]
     exact mapTokens_code _ (by intro t; rfl) f
-
-theorem commentText_nonempty (content : Bytes) (h0 : content ≠ []) :
-    (commentText content).isEmpty = false := by
-  by_cases h10 : 10 ∈ content
-  · rw [commentText_multi content h10]; rfl
-  · rw [commentText_single content h0 h10]; rfl
 
 /-- The line numbers after `append_text_comment`: every numbered code token is shifted by
 `lines().count()` of the comment, **whatever the location**. -/
